@@ -44,6 +44,7 @@ type deferred struct {
 	args []Val
 	fnv  Val
 	pos  token.Pos
+	cond string // reach condition under which the defer was registered
 }
 
 type State struct {
@@ -93,6 +94,8 @@ type FT struct {
 	inlined map[string]bool
 	havocked map[string]bool // callee names handled by havoc
 	inQuant  int
+	devirt   map[string]types.Type // interface type string -> concrete type (specialised verification)
+	variant  string
 	staticLen map[string]int // slice term -> statically known length (varargs arrays)
 }
 
